@@ -23,7 +23,8 @@ def dump_parser(parser):
     def visit(e):
         if id(e) in ids:
             return ids[id(e)]
-        k = KIND.get(type(e).__name__)
+        # classify by behaviour (subclasses such as textX's KeywordMatch(RegExMatch) count as their base class)
+        k = next((KIND[c.__name__] for c in type(e).__mro__ if c.__name__ in KIND), None)
         if k is None:
             raise Unsupported(type(e).__name__)
         i = len(objs)
@@ -98,7 +99,7 @@ def real_parse(parser, text, objs):
 
     ids = {id(o): i for i, o in enumerate(objs)}
     # EOF() inside Terminal(EOF(), ...) is a fresh object: map every EndOfFile to the model's eof node
-    eof_ids = [i for i, o in enumerate(objs) if type(o).__name__ == "EndOfFile"]
+    eof_ids = [i for i, o in enumerate(objs) if any(c.__name__ == "EndOfFile" for c in type(o).__mro__)]
     try:
         tree = parser.parse(text)
     except TextXSyntaxError as e:
